@@ -185,6 +185,30 @@ Proof.
   - discriminate.
 Qed.
 
+(* a retry of a possibly-refused writer: its argument stays positive, the helper's argument is 1 *)
+Lemma ptr_retry ths i a :
+  ptr_ok ths -> nth_error ths i = Some (FTry, S (S (S a))) ->
+  ptr_ok (set_nth i (FTry, S a) ths ++ [(SLoad, 1)]).
+Proof.
+  intros Hp Hi j b Hj tp Hb.
+  assert (Hlt : i < length ths) by (apply nth_error_Some; rewrite Hi; discriminate).
+  assert (Hlen : length (set_nth i (FTry, S a) ths) = length ths) by apply set_nth_length.
+  destruct (Nat.lt_ge_cases b (length ths)) as [Hbl|Hbl].
+  - rewrite nth_error_app1 in Hb by lia.
+    destruct (Nat.eq_dec b i) as [->|Hbi].
+    + rewrite nth_error_set_nth_eq in Hb by assumption. injection Hb as _ E. discriminate E.
+    + rewrite nth_error_set_nth_neq in Hb by lia.
+      destruct (Nat.lt_ge_cases j (length ths)) as [Hjl|Hjl].
+      * rewrite nth_error_app1 in Hj by lia.
+        destruct (Nat.eq_dec j i) as [->|Hji].
+        -- rewrite nth_error_set_nth_eq in Hj by assumption. injection Hj as E. discriminate E.
+        -- rewrite nth_error_set_nth_neq in Hj by lia. exact (Hp j b Hj tp Hb).
+      * rewrite nth_error_app2 in Hj by lia. rewrite Hlen in Hj.
+        destruct (j - length ths) as [|k]; cbn [nth_error] in Hj; [discriminate Hj|destruct k; discriminate Hj].
+  - rewrite nth_error_app2 in Hb by lia. rewrite Hlen in Hb.
+    destruct (b - length ths) as [|k]; cbn [nth_error] in Hb; [discriminate Hb|destruct k; discriminate Hb].
+Qed.
+
 (* every thread that is not finished and not waiting for a held lock can move *)
 Lemma step_enabled s j p a :
   nth_error (ths_of s) j = Some (p, a) -> p <> Done ->
@@ -211,6 +235,7 @@ Proof.
   - destruct (Nat.eqb (ds_of s) 1); eexists; reflexivity.
   - rewrite Hl by (right; right; right; reflexivity). eexists; reflexivity.
   - destruct (wb_of s); eexists; reflexivity.
+  - destruct a as [|[|[|a]]]; eexists; reflexivity.
 Qed.
 
 (* ------------------------------------------------------------------ *)
@@ -223,7 +248,7 @@ Ltac pose_counts H :=
   pose proof (H DTry); pose proof (H DCas); pose proof (H DLock); pose proof (H CLock);
   pose proof (H MStore); pose proof (H MDrain); pose proof (H MLoad); pose proof (H MCas);
   pose proof (H MStoreReq); pose proof (H MUnlock); pose proof (H RLoad); pose proof (H Done); pose proof (H RdLoad);
-  pose proof (H GLock); pose proof (H GLoad); pose proof (H ILock); pose proof (H IDrain).
+  pose proof (H GLock); pose proof (H GLoad); pose proof (H ILock); pose proof (H IDrain); pose proof (H FTry).
 
 Ltac simp_counts := cbn [b2n pceq pc_to_nat Nat.eqb tok0 fst snd orb andb] in *.
 
@@ -374,6 +399,19 @@ Proof.
     destruct wb as [|wb]; intros E; injection E as <-.
     + simple_step Hi MUnlock a. finish HI Hi.
     + simple_step Hi IDrain a. finish HI Hi.
+  - (* FTry *)
+    destruct a as [|[|[|a]]]; intros E; injection E as <-.
+    + simple_step Hi CLock 0. finish HI Hi.
+    + simple_step Hi CLock 1. finish HI Hi.
+    + simple_step Hi WPush 2. finish HI Hi.
+    + open_inv HI.
+      match goal with |- context [ntok0 (?l ++ [?t])] =>
+        destruct (n_spawn l t) as [Hm Hu];
+        match l with set_nth _ (?p', ?a') _ => destruct (n_step _ _ _ _ p' a' Hi) as [Hn Ht] end
+      end.
+      pose_counts Hn; clear Hn. pose_counts Hm; clear Hm. simp_counts.
+      split; [lia|]. split; [lia|]. split; [lia|]. split; [lia|]. split; [lia|]. split; [lia|].
+      apply ptr_retry; assumption.
 Qed.
 
 (* ------------------------------------------------------------------ *)
@@ -477,7 +515,7 @@ Proof.
   { intros q Hq. unfold n_. apply cnt_zero. intros j [p a] Hj. unfold at_pc. cbn [fst].
     rewrite (Hdone j p a Hj). destruct (pceq Done q) eqn:E; [|reflexivity]. apply pceq_eq in E. subst q. contradiction. }
   unfold n_A, n_W1, n_C in *.
-  pose proof (Hz WPush ltac:(discriminate)). pose proof (Hz WLoad ltac:(discriminate)). pose proof (Hz WCasReq ltac:(discriminate)). pose proof (Hz WCasP2R ltac:(discriminate)). pose proof (Hz SLoad ltac:(discriminate)). pose proof (Hz STry ltac:(discriminate)). pose proof (Hz SLoad2 ltac:(discriminate)). pose proof (Hz SUnlockRet ltac:(discriminate)). pose proof (Hz SStore ltac:(discriminate)). pose proof (Hz SSpawn ltac:(discriminate)). pose proof (Hz SCas ltac:(discriminate)). pose proof (Hz SUnlock ltac:(discriminate)). pose proof (Hz DTry ltac:(discriminate)). pose proof (Hz DCas ltac:(discriminate)). pose proof (Hz DLock ltac:(discriminate)). pose proof (Hz CLock ltac:(discriminate)). pose proof (Hz MStore ltac:(discriminate)). pose proof (Hz MDrain ltac:(discriminate)). pose proof (Hz MLoad ltac:(discriminate)). pose proof (Hz MCas ltac:(discriminate)). pose proof (Hz MStoreReq ltac:(discriminate)). pose proof (Hz MUnlock ltac:(discriminate)). pose proof (Hz RLoad ltac:(discriminate)). pose proof (Hz RdLoad ltac:(discriminate)). pose proof (Hz GLock ltac:(discriminate)). pose proof (Hz GLoad ltac:(discriminate)). pose proof (Hz ILock ltac:(discriminate)). pose proof (Hz IDrain ltac:(discriminate)).
+  pose proof (Hz WPush ltac:(discriminate)). pose proof (Hz WLoad ltac:(discriminate)). pose proof (Hz WCasReq ltac:(discriminate)). pose proof (Hz WCasP2R ltac:(discriminate)). pose proof (Hz SLoad ltac:(discriminate)). pose proof (Hz STry ltac:(discriminate)). pose proof (Hz SLoad2 ltac:(discriminate)). pose proof (Hz SUnlockRet ltac:(discriminate)). pose proof (Hz SStore ltac:(discriminate)). pose proof (Hz SSpawn ltac:(discriminate)). pose proof (Hz SCas ltac:(discriminate)). pose proof (Hz SUnlock ltac:(discriminate)). pose proof (Hz DTry ltac:(discriminate)). pose proof (Hz DCas ltac:(discriminate)). pose proof (Hz DLock ltac:(discriminate)). pose proof (Hz CLock ltac:(discriminate)). pose proof (Hz MStore ltac:(discriminate)). pose proof (Hz MDrain ltac:(discriminate)). pose proof (Hz MLoad ltac:(discriminate)). pose proof (Hz MCas ltac:(discriminate)). pose proof (Hz MStoreReq ltac:(discriminate)). pose proof (Hz MUnlock ltac:(discriminate)). pose proof (Hz RLoad ltac:(discriminate)). pose proof (Hz RdLoad ltac:(discriminate)). pose proof (Hz GLock ltac:(discriminate)). pose proof (Hz GLoad ltac:(discriminate)). pose proof (Hz ILock ltac:(discriminate)). pose proof (Hz IDrain ltac:(discriminate)). pose proof (Hz FTry ltac:(discriminate)).
   assert (ds = 0) by lia. subst ds. assert (wb = 0) by lia. subst wb.
   unfold drained. cbn [ds_of lock_of wb_of ths_of fst snd Nat.eqb negb andb].
   rewrite !andb_true_r. unfold all_done. apply forallb_forall. intros [p a] Hin.
@@ -536,4 +574,47 @@ Theorem drained_any_population_with_lock_holders w c rd rf g iv : forall sched,
 Proof.
   intros sched s T. apply CInv_terminal_drained; [|exact T].
   apply (CInv_reachableA w c rd rf g iv). apply run_sched_reachable. constructor.
+Qed.
+
+Lemma cnt_map_ftry f (fs : list nat) : (forall a, f (FTry, a) = false) -> cnt f (map (fun a => (FTry, a)) fs) = 0.
+Proof. intros H. induction fs as [|a fs IH]; [reflexivity|]. cbn [map]. rewrite cnt_cons, H, IH. reflexivity. Qed.
+
+Lemma cnt_map_ftry_at (fs : list nat) : cnt (at_pc FTry) (map (fun a => (FTry, a)) fs) = length fs.
+Proof. induction fs as [|a fs IH]; [reflexivity|]. cbn [map length]. rewrite cnt_cons, IH. reflexivity. Qed.
+
+Lemma CInv_initF w c rd rf g iv fs : CInv (dinitF w c rd rf g iv fs).
+Proof.
+  unfold CInv, dinitF. cbn [ds_of lock_of wb_of ths_of mk fst snd].
+  set (l := repeat (WPush, 0) w ++ repeat (CLock, 0) c ++ repeat (RdLoad, 0) rd ++ repeat (RdLoad, 1) rf ++
+            repeat (GLock, 0) g ++ repeat (ILock, 0) iv ++ map (fun a => (FTry, a)) fs).
+  assert (Hn : forall q, q <> FTry -> n_ l q = w * b2n (pceq WPush q) + c * b2n (pceq CLock q) + rd * b2n (pceq RdLoad q) + rf * b2n (pceq RdLoad q) +
+                          g * b2n (pceq GLock q) + iv * b2n (pceq ILock q)).
+  { intros q Hq. unfold n_, l. rewrite !cnt_app, !cnt_repeat. rewrite cnt_map_ftry.
+    - unfold at_pc. cbn [fst]. lia.
+    - intros a. unfold at_pc. cbn [fst]. destruct (pceq FTry q) eqn:E; [|reflexivity]. apply pceq_eq in E. congruence. }
+  assert (Ht : ntok0 l = 0).
+  { unfold ntok0, l. rewrite !cnt_app, !cnt_repeat. rewrite cnt_map_ftry by (intros a; reflexivity).
+    cbn [tok0 fst snd pceq pc_to_nat Nat.eqb orb andb b2n]. lia. }
+  unfold n_owner, n_mid, n_A, n_W1, n_C.
+  rewrite !Hn by discriminate. rewrite Ht.
+  cbn [b2n pceq pc_to_nat Nat.eqb].
+  split; [lia|]. split; [lia|]. split; [lia|]. split; [lia|]. split; [lia|]. split; [lia|].
+  intros i a Hi. exfalso. apply nth_error_In in Hi. unfold l in Hi.
+  repeat (apply in_app_or in Hi; destruct Hi as [Hi|Hi]; [apply repeat_spec in Hi; discriminate Hi|]).
+  apply in_map_iff in Hi. destruct Hi as (x & Hx & _). discriminate Hx.
+Qed.
+
+Theorem CInv_reachableF w c rd rf g iv fs s : reachable (dinitF w c rd rf g iv fs) s -> CInv s.
+Proof.
+  intros R. induction R as [|s i s' R IH Hs]; [apply CInv_initF|]. exact (CInv_step s i s' IH Hs).
+Qed.
+
+(* ... and with any number of writers that find the write buffer full any number of times — each refusal followed
+   by a scheduleDrainBuffers call — and then either get their event accepted or, the retries exhausted, run the
+   maintenance themselves (afterWriteTask's caller-runs fallback) *)
+Theorem drained_any_population_with_fallback w c rd rf g iv fs : forall sched,
+  let s := run_sched (dinitF w c rd rf g iv fs) sched in terminal s = true -> drained s = true.
+Proof.
+  intros sched s T. apply CInv_terminal_drained; [|exact T].
+  apply (CInv_reachableF w c rd rf g iv fs). apply run_sched_reachable. constructor.
 Qed.
